@@ -311,6 +311,8 @@ class _Normaliser:
         """`if T: return True` followed by `return False` (or as if/else; or with the constants swapped) where T is made of
         comparisons, `not`, `and` / `or`, isinstance: `return T` / `return not T` - T already is the bool that is returned."""
         s = block[i]
+        if not isinstance(s, ast.If):
+            return None         # an earlier normal form already rewrote this statement
 
         def boolish(t):
             if isinstance(t, ast.Compare):
